@@ -57,8 +57,10 @@ class WrappingMatcher(mcore.Matcher):
     def replace(self, minquality=0):
         # Replace the child matcher. The child's qualities are not multiplied
         # by the boost, so scale the threshold like skip_to_quality() does
-        if minquality and self.boost:
+        if minquality and self.boost > 0:
             minquality = minquality / self.boost
+        elif minquality:
+            minquality = 0
         r = self.child.replace(minquality)
         if r is not self.child:
             # If the child changed, return a new wrapper on the new child
@@ -103,6 +105,10 @@ class WrappingMatcher(mcore.Matcher):
         return self.child.supports_block_quality()
 
     def skip_to_quality(self, minquality):
+        if self.boost <= 0:
+            # The child's bounds cannot be rescaled (a zero boost used to
+            # raise ZeroDivisionError); not skipping is always correct
+            return 0
         return self.child.skip_to_quality(minquality / self.boost)
 
     def max_quality(self):
